@@ -373,6 +373,12 @@ def _scen_worker(args):
     return res
 
 
+def symx_slack():
+    from .symx import slack
+
+    return slack()
+
+
 def run_plan(rep, plan, scenarios, opts, workers=None, canaries=()):
     """plan: list of (scenario name, params, expected reach labels[, canary flag]).  Scenarios run in
     parallel processes (one symbolic exploration each)."""
@@ -440,7 +446,7 @@ def run_plan(rep, plan, scenarios, opts, workers=None, canaries=()):
             elif not pr.is_alive():
                 results[k] = RuntimeError("worker exited without a result")
                 done.append(k)
-            elif time.time() - t0 > limit:
+            elif time.time() - t0 > limit * symx_slack():
                 pr.kill()
                 results[k] = None
                 if k in partial:
